@@ -30,7 +30,7 @@ Run(proto, method, v6, mn, mx, q, e) ==
      min_ttl |-> mn, max_ttl |-> mx, delay_ms |-> 20, timeout_ms |-> 300, queries |-> q, e2e |-> e,
      listen_port |-> IF proto = "tcp" /\ method \in {"sack", "prefer_sack"} THEN 443 ELSE 0,
      reverse_dns |-> FALSE, public_ip |-> FALSE, pub_mode |-> "ok", skip_private |-> FALSE, paris |-> FALSE, via |-> "lib", query |-> "",
-     dns |-> [x \in {} |-> ""], http_method |-> "", http_path |-> "", broken_writer |-> 0, start_delay_us |-> 0]
+     dns |-> [x \in {} |-> ""], http_method |-> "", http_path |-> "", broken_writer |-> 0, start_delay_us |-> 0, tcp_block |-> ""]
 
 Protos == { <<"icmp", "", FALSE>>, <<"icmp", "", TRUE>>, <<"udp", "", FALSE>>, <<"udp", "", TRUE>>,
             <<"tcp", "syn", FALSE>>, <<"tcp", "sack", FALSE>>, <<"tcp", "prefer_sack", FALSE>> }
@@ -61,12 +61,17 @@ C15Cancel(pr, e, c) ==
 C15Many(pr) ==
     [C15Scen(pr, 4, 8, <<>>, Orders1, "none") EXCEPT !.id = "C15/many/" \o pr[1] \o pr[2], !.label = pr[1] \o "/" \o pr[2] \o "/twelve_failures",
         !.faults = [r \in 1..12 |-> [op |-> "write", k |-> 1, class |-> "fatal", run |-> r]]]
+\* 120 failing queries through the HTTP API: the text of the error answer (all a client gets) still names every single one
+C15ManyHttp(pr) ==
+    [C15Scen(pr, 60, 60, <<>>, Orders1, "none") EXCEPT !.id = "C15/many/http/" \o pr[1] \o pr[2], !.label = "http/" \o pr[1] \o "/" \o pr[2] \o "/120_failures",
+        !.faults = [r \in 1..120 |-> [op |-> "write", k |-> 1, class |-> "fatal", run |-> r]], !.run.via = "http",
+        !.run.query = "target=" \o T4 \o "&protocol=" \o pr[1] \o "&tcp-method=" \o pr[2] \o "&port=443&max-ttl=4&timeout=300&traceroute-queries=60&e2e-queries=60"]
 \* the same counts through the HTTP API, zero included (traceroute-only and e2e-only requests)
 C15Http(pr, q, e) ==
     [C15Scen(pr, q, e, <<>>, Orders1, "none") EXCEPT !.id = "C15/http/" \o pr[1] \o pr[2] \o "/" \o ToString(q) \o "-" \o ToString(e), !.label = "http/" \o pr[1] \o "/q" \o ToString(q) \o "e" \o ToString(e),
         !.run.via = "http",
         !.run.query = "target=" \o T4 \o "&protocol=" \o pr[1] \o "&tcp-method=" \o pr[2] \o "&port=443&max-ttl=4&timeout=300&traceroute-queries=" \o ToString(q) \o "&e2e-queries=" \o ToString(e)]
-C15All(u) == { C15Http(pr, qe[1], qe[2]) : pr \in {<<"udp", "", FALSE>>, <<"tcp", "syn", FALSE>>}, qe \in {<<1, 0>>, <<0, 1>>, <<0, 2>>, <<2, 1>>} } \cup { C15Many(pr) : pr \in {<<"udp", "", FALSE>>, <<"icmp", "", FALSE>>} } \cup { C15Cancel(pr, e, c) : pr \in {<<"udp", "", FALSE>>, <<"tcp", "syn", FALSE>>, <<"udp", "", TRUE>>}, e \in {2, 4}, c \in {100000, 450000} } \cup { C15Scen(pr, qe[1], qe[2], fs, ord, pub) :
+C15All(u) == { C15Http(pr, qe[1], qe[2]) : pr \in {<<"udp", "", FALSE>>, <<"tcp", "syn", FALSE>>}, qe \in {<<1, 0>>, <<0, 1>>, <<0, 2>>, <<2, 1>>} } \cup { C15Many(pr) : pr \in {<<"udp", "", FALSE>>, <<"icmp", "", FALSE>>} } \cup { C15ManyHttp(pr) : pr \in {<<"udp", "", FALSE>>, <<"icmp", "", FALSE>>} } \cup { C15Cancel(pr, e, c) : pr \in {<<"udp", "", FALSE>>, <<"tcp", "syn", FALSE>>, <<"udp", "", TRUE>>}, e \in {2, 4}, c \in {100000, 450000} } \cup { C15Scen(pr, qe[1], qe[2], fs, ord, pub) :
                  pr \in Protos, qe \in {<<1, 0>>, <<3, 0>>, <<0, 2>>, <<2, 3>>, <<3, 1>>}, fs \in FaultSets(4), ord \in Orders, pub \in {"none", "ok", "fail"} }
 
 ---------------------------------------------------------------------------
@@ -91,8 +96,15 @@ C19Http(pr, mx, port, host) ==
                 !.query = "target=" \o host \o "&protocol=" \o pr[1] \o "&tcp-method=" \o pr[2] \o "&port=" \o ToString(port) \o "&max-ttl=" \o ToString(mx)
                           \o "&timeout=120&traceroute-queries=1&e2e-queries=0" \o (IF pr[3] THEN "&ipv6=true" ELSE "")],
      path |-> PathOf([t \in {1} |-> <<>>])]
+\* tcp-method sack against a target that cannot do SACK (closed port / no SACK-permitted in the handshake): the method cannot be
+\* honoured, so the request is REJECTED - never carried out with another kind of probe
+C19NoSack(cap, via) ==
+    LET base == IF via = "http" THEN C19Http(<<"tcp", "sack", FALSE>>, 3, 443, T4) ELSE C19Scen(<<"tcp", "sack", FALSE>>, 1, 3, 443, T4, "proto") IN
+    [base EXCEPT !.id = @ \o "/forced_sack/" \o cap, !.label = via \o "/tcpsack/forced_sack_unavailable/" \o cap,
+                 !.sack_perm = (cap # "no_sackperm"), !.run.listen_port = IF cap = "port_closed" THEN 0 ELSE 443, !.extra.expect.reject = TRUE]
 TTLPairs == { <<a, b>> \in TTLVals \X TTLVals : a \in {-1, 0, 1, 2, 255, 256, 257, 300} \/ b \in {255, 256, 257, 300, 511, 65537, 0, -1} }
 C19All(u) ==
+    { C19NoSack(cap, via) : cap \in {"port_closed", "no_sackperm"}, via \in {"lib", "http"} } \cup
     { C19Scen(pr, p[1], p[2], 443, IF pr[3] THEN T6 ELSE T4, "ttl") : pr \in Protos, p \in TTLPairs }
     \cup { C19Scen(pr, 1, 3, port, IF pr[3] THEN T6 ELSE T4, "port") : pr \in Protos, port \in PortVals }
     \cup { C19Scen(<<p, m, FALSE>>, 1, 3, 443, T4, "proto") : p \in {"udp", "tcp", "icmp", "UDP", "TCP", "", "sctp"}, m \in {"", "syn", "sack", "prefer_sack", "syn_socket", "SYN", "x"} }
@@ -129,7 +141,8 @@ C20Scen(m, cap, f, e) ==
         sack_perm |-> (cap # "no_sackperm"), sack_ts |-> (cap = "sack_ok_ts"), no_synack |-> (cap = "no_synack"),
         extra |-> [expect20 |-> ex @@ [method |-> m, cap |-> cap, fault |-> f]],
         faults |-> fl,
-        run |-> [Run("tcp", m, FALSE, 1, 4, 1, e) EXCEPT !.listen_port = IF cap = "port_closed" THEN 0 ELSE 443],
+        run |-> [Run("tcp", m, FALSE, 1, 4, 1, e) EXCEPT !.listen_port = IF cap \in {"port_closed", "unreachable"} THEN 0 ELSE 443,
+                                                          !.tcp_block = IF cap = "unreachable" THEN "reject" ELSE IF cap = "addr_mismatch" THEN "src2" ELSE ""],
         path |-> PathOf([t \in 1..4 |-> IF t >= 3 THEN destReplies ELSE <<[form |-> "te", from |-> R4(t), delay_us |-> 1000 * t]>>])]
 \* the caller's context is cancelled before / while the SACK path connects: a cancellation is not "SACK unavailable" - the request
 \* ends as the policy says or with an error, but never with a SYN trace for a target that supports SACK
